@@ -333,3 +333,59 @@ def run_match_acc(run, P, units=('oscore_context.c', 'coap_oscore.c', 'oscore.c'
                           'the truth value assigned at %s is overwritten here before anything read it: that comparison no longer takes part in the decision (a look-up then accepts an '
                           'entry that differs in what was compared there)' % a.rsplit('/', 1)[-1], path)
     run.require(nf >= 1 or run.fixture_mode, 'R-OSC-SPLIT(match accumulators): no truth-valued local found in %s' % (units,))
+
+
+def run_outer_discard(run, P):
+    """R-OSC-SPLIT (unprotect discards outer class E options): RFC 8613 8.2 / 8.4 step 1 -- "discard any outer options that are class E".
+    The outer options of a protected message are neither encrypted nor covered by the AAD; whatever of them is copied into the decrypted
+    message reaches the application with the authority of the inner, protected options.  In coap_oscore_decrypt_pdu(), at every call that
+    inserts an option with the outer iterator's running number into another PDU, no class-E-only option number of RFC 8613 Figure 5 is
+    possible: the switch in front of it has taken every one of them out (case label that does not reach the insertion)."""
+    run.rule('R-OSC-SPLIT')
+    if not P.has(DEC):
+        run.require(run.fixture_mode or run.cfg != 'base', 'R-OSC-SPLIT(outer discard): anchor %s() not found' % DEC)
+        return
+    g = P.func(DEC)
+    num_aps = set()
+    for b in g['blocks']:
+        t = b.get('term')
+        if t and t.get('c') == 'SwitchStmt' and t.get('cond') is not None:
+            c = strip(t['cond'])
+            if isinstance(c, dict) and c.get('k') == 'mem' and c['f'] == 'number' and ap(c):
+                num_aps.add(ap(c))
+    run.require(bool(num_aps) or run.fixture_mode, 'R-OSC-SPLIT(outer discard): no switch on an option iterator number in %s()' % DEC)
+    n = [0]
+
+    rcvd = set('v%d' % p['id'] for p in g['params'] if p.get('p') and p.get('prec') == 'coap_pdu_t')
+
+    def is_rule_event(ev):
+        t = ev['e']
+        return t.get('k') == 'call' and (t.get('fn') in INSERTERS or t.get('fn') == 'coap_option_iterator_init')
+    keys, R = relevance(g, is_rule_event, num_aps)
+    R = set(R) | num_aps
+
+    def on_event(ev, env, ctx):
+        t = ev['e']
+        if t.get('k') == 'call' and t.get('fn') == 'coap_option_iterator_init' and t.get('a'):
+            # which message the iterator walks: the received (outer) one, or the decrypted plaintext (whose options ARE protected)
+            e = apply_generic(ev, env, R).copy()
+            e.ts['walks'] = 'outer' if ap(t['a'][0]) in rcvd else 'other'
+            return [e]
+        if t.get('k') != 'call' or t.get('fn') not in INSERTERS or len(t['a']) < 2:
+            return None
+        na = ap(t['a'][1]) if ap(t['a'][1]) in num_aps else (key(t['a'][1]) if key(t['a'][1]) in num_aps else None)
+        if na is None or env.ts.get('walks') != 'outer':
+            return None
+        lo, hi, ex = env.intf(na)
+        possible = sorted(k for k in CLASS_E_ONLY if lo <= k <= hi and k not in ex)
+        n[0] += 1
+        run.instance('R-OSC-SPLIT', '%s: outer option copied with the iterator number (excluded: %d numbers)' % (DEC, len(ex)))
+        run.oblige('R-OSC-SPLIT', not possible, 'outer-class-E-discarded')
+        if possible:
+            run.violation('R-OSC-SPLIT', DEC, ev['loc'], 'outer-class-E-copied:%s' % ','.join(str(k) for k in possible),
+                          'an outer option is copied into the decrypted message with a number that can be %s: outer options are not authenticated, RFC 8613 8.2/8.4 step 1 '
+                          'requires outer class E options to be discarded -- an attacker on the path adds such an option and the application sees it as protected' %
+                          ', '.join('%d (%s)' % (k, CLASS_E_ONLY[k]) for k in possible), ctx.path())
+        return None
+    solve(g, Env(), on_event, None, keys, R, key_fn=lambda e: (e.ts.get('walks'), tuple(e.intf(a) for a in sorted(num_aps))))
+    run.require(n[0] >= 1 or run.fixture_mode, 'R-OSC-SPLIT(outer discard): no copy of an outer option by iterator number found in %s()' % DEC)
